@@ -51,7 +51,13 @@ def gen(rng):
         btypes["tb"] = btypes["ta"]          # two atom types sharing one bond type
     comb = rng.choice([1, 2, 3])
     genpairs = rng.choice(["yes", "no"])
-    lines = ["[ defaults ]", "1 %d %s 1.0 1.0" % (comb, genpairs)]
+    form = rng.random()
+    if form < 0.2:
+        lines = ["[ defaults ]", "1 %d %s" % (comb, genpairs)]          # fudge factors left out
+    elif form < 0.3 and genpairs == "no":
+        lines = ["[ defaults ]", "1 %d" % comb]                         # gen-pairs left out as well: no
+    else:
+        lines = ["[ defaults ]", "1 %d %s 1.0 1.0" % (comb, genpairs)]
     if opls:
         lines.insert(0, "#define _FF_OPLS")
     atypes = {}
